@@ -5,7 +5,7 @@
    unification of chunk-local codes). *)
 From Coq Require Import List ZArith Bool.
 From GL Require Import Lib.Arr Model.Factorize Model.GroupByApi Spec.RowSpec
-  Proofs.FactorizeProofs Proofs.SelectProofs Proofs.ChunkedKeys.
+  Proofs.FactorizeProofs Proofs.CombineProofs Proofs.MonoProofs Proofs.IndexerProofs Proofs.SelectProofs Proofs.ChunkedKeys.
 Import ListNotations.
 Open Scope Z_scope.
 
@@ -16,6 +16,44 @@ Theorem C02_null_iff_any_component_null codes weights :
   (weight_code_sum codes weights = -1 <-> In (-1) codes).
 Proof. exact (weight_code_sum_null codes weights). Qed.
 Print Assumptions C02_null_iff_any_component_null.
+
+(* 1b. several keys, THE statement: with the weights of factorize_2d (products of the later
+   cardinalities) the combination is a faithful first-appearance factorization of the code tuples:
+   null code iff a component is null, otherwise the label at the row's code is the row's tuple;
+   labels pairwise distinct, null-free, each the tuple of some row.  Any number of keys and rows. *)
+Theorem C02_weight_code_sum_is_mixed_radix shape codes : shape <> [] -> in_range shape codes ->
+  weight_code_sum codes (code_weights shape) = enc shape codes /\ 0 <= enc shape codes < prod shape.
+Proof. exact (fun Hne H => conj (weight_code_sum_is_enc shape codes Hne H) (enc_bound shape codes H)). Qed.
+Theorem C02_mixed_radix_injective shape c1 c2 : in_range shape c1 -> in_range shape c2 ->
+  enc shape c1 = enc shape c2 -> c1 = c2.
+Proof. exact (enc_inj shape c1 c2). Qed.
+Theorem C02_combine_faithful shape rows : shape <> [] -> Forall (row_ok shape) rows ->
+  let r := combine_factorizations rows (code_weights shape) (Z.to_nat (prod shape)) in
+  Forall2 (code_ok (snd r)) rows (fst r) /\ NoDup (snd r) /\ (forall u, In u (snd r) -> In u rows /\ ~ In (-1) u).
+Proof. exact (combine_faithful shape rows). Qed.
+Theorem C02_same_code_iff_same_key labels rows codes i j ri rj ci cj :
+  Forall2 (code_ok labels) rows codes -> NoDup labels ->
+  nth_error rows i = Some ri -> nth_error rows j = Some rj ->
+  nth_error codes i = Some ci -> nth_error codes j = Some cj ->
+  ~ In (-1) ri -> ~ In (-1) rj -> (ci = cj <-> ri = rj).
+Proof. exact (same_code_iff_same_key labels rows codes i j ri rj ci cj). Qed.
+Print Assumptions C02_weight_code_sum_is_mixed_radix.
+Print Assumptions C02_mixed_radix_injective.
+Print Assumptions C02_combine_faithful.
+Print Assumptions C02_same_code_iff_same_key.
+
+(* 1c. the monotonic fast path: the cut-off is the length of the longest null-free non-decreasing
+   prefix; on it the codes are faithful and the labels strictly increasing (distinct, sorted), each
+   observed *)
+Theorem C02_monotonic arr :
+  let '(c, codes, labels) := monotonic_factorization arr in
+  exists P rest, arr = map Some P ++ rest /\ c = Z.of_nat (length P) /\ nondec P /\
+    (rest = [] \/ (exists t, rest = None :: t) \/ (exists v t, rest = Some v :: t /\ P <> [] /\ v < last P 0)) /\
+    Forall2 (label_of labels) P codes /\ strict_inc labels /\ (forall x, In x labels -> In x P).
+Proof. exact (monotonic_factorization_spec arr). Qed.
+Theorem C02_monotonic_labels_distinct l : strict_inc l -> NoDup l.
+Proof. exact (strict_inc_NoDup l). Qed.
+Print Assumptions C02_monotonic.
 
 (* 2. chunk-local codes: unification maps code k of a chunk to pointer[k] and keeps null null *)
 Theorem C02_unify_nonnull p k : 0 <= k -> unify_code p k = Z.of_nat (get 0%nat p (Z.to_nat k)).
@@ -34,6 +72,31 @@ Theorem C02_group_rows_once g gk : NoDup (positions_of g gk None).
 Proof. exact (positions_sorted g gk None). Qed.
 Theorem C02_no_null_key_row g gk i : In i (positions_of g gk None) -> 0 <= get (-1) gk i.
 Proof. exact (no_null_key_selected g gk None i). Qed.
+(* the counting sort behind `groups` / the group-sorted layouts: the slice of the indexer handed out for
+   label g (offset = sum of the counts of the labels placed before it, length = its count) is exactly
+   the ascending list of positions of g's selected rows — with or without a key map (sorted output
+   order: key_map[g] = output slot of g, a bijection), any chunking of the codes, any mask.
+   counts are in output order, as the caller computes them from the key counts. *)
+Theorem C02_groups_slice gk counts key_map mask ng chunks g :
+  (forall g, (g < ng)%nat -> 0 <= out key_map (Z.of_nat g) /\ (outn key_map g < ng)%nat) ->
+  (forall g g', (g < ng)%nat -> (g' < ng)%nat -> outn key_map g = outn key_map g' -> g = g') ->
+  length counts = ng ->
+  (forall g, (g < ng)%nat -> get 0 counts (outn key_map g) = Z.of_nat (length (positions_of g gk mask))) ->
+  (forall c, In c counts -> 0 <= c) -> (forall k, In k gk -> k < Z.of_nat ng) ->
+  gk = concat chunks -> (g < ng)%nat ->
+  firstn (length (positions_of g gk mask))
+         (skipn (Z.to_nat (psum counts (outn key_map g))) (build_group_sorted_indexer chunks counts key_map mask))
+  = map Z.of_nat (positions_of g gk mask).
+Proof. intros H1 H2 H3 H4 H5 H6. exact (indexer_slice gk counts key_map mask ng H1 H2 H3 H4 H5 H6 chunks g). Qed.
+Print Assumptions C02_groups_slice.
+Theorem C02_groups_slice_plain gk counts mask chunks g :
+  (forall i, (i < length counts)%nat -> get 0 counts i = Z.of_nat (length (positions_of i gk mask))) ->
+  (forall k, In k gk -> k < Z.of_nat (length counts)) ->
+  gk = concat chunks -> (g < length counts)%nat ->
+  firstn (length (positions_of g gk mask)) (skipn (Z.to_nat (psum counts g)) (build_group_sorted_indexer chunks counts None mask))
+  = map Z.of_nat (positions_of g gk mask).
+Proof. exact (indexer_slice_plain gk counts mask chunks g). Qed.
+Print Assumptions C02_groups_slice_plain.
 Print Assumptions C02_group_rows.
 Print Assumptions C02_group_rows_once.
 Print Assumptions C02_no_null_key_row.
@@ -41,5 +104,7 @@ Print Assumptions C02_no_null_key_row.
 Example C02_example :
   weight_code_sum [1; -1; 0] [6; 2; 1] = -1 /\ weight_code_sum [1; 2; 0] [6; 2; 1] = 10 /\
   combine_factorizations [[0; 1]; [1; -1]; [0; 1]; [1; 0]; [0; 0]] [2; 1] 4 = ([0; -1; 0; 1; 2], [[0; 1]; [1; 0]; [0; 0]]) /\
-  build_group_sorted_indexer [[0; 1; -1]; [1; 0; 2]] [2; 2; 1] None None = [0; 4; 1; 3; 5].
+  build_group_sorted_indexer [[0; 1; -1]; [1; 0; 2]] [2; 2; 1] None None = [0; 4; 1; 3; 5] /\
+  monotonic_factorization [Some 3; Some 3; Some 5; None; Some 9] = (3, [0; 0; 1], [3; 5]) /\
+  monotonic_factorization [Some 3; Some 4; Some 2] = (2, [0; 1], [3; 4]).
 Proof. repeat split; vm_compute; reflexivity. Qed.
